@@ -109,6 +109,8 @@ pub struct Call {
     pub content_length: Option<u64>,
     pub cookies: BTreeMap<String, String>,
     pub query: Option<String>,
+    /// the blocking job that ran this call
+    pub job: Option<u64>,
 }
 
 #[derive(Default)]
@@ -195,6 +197,7 @@ pub fn scripted_handler(req: Request) -> Response {
         content_length: req.content_length,
         cookies: req.cookies.iter().map(|(k, v)| (k.clone(), v.clone())).collect(),
         query: req.url().query().map(str::to_string),
+        job: sim_core::with(|w| w.current_job),
     };
     sim_core::with(|w| w.note(format!("HandlerInvoked conn={} path={} pending={} body_kind={}", call.conn, call.path, call.pending, call.body_kind)));
     let plan = HANDLER.with(|h| {
